@@ -108,6 +108,7 @@ pub struct HStats {
     pub records_delivered: usize,
     pub seeks_in_buffer: usize,
     pub seeks_real: usize,
+    pub largest_set: usize,
     /// seek targets inside / outside the last `capacity` bytes the source has delivered (a fact about
     /// the workload, independent of whether the reader uses an in-buffer shortcut)
     pub seek_targets_in_window: usize,
@@ -682,6 +683,7 @@ impl<'a> Runner<'a> {
                 };
                 self.trace.push(format!("set Ok({} records)", recs.len()));
                 self.stats.records_delivered += recs.len();
+                self.stats.largest_set = self.stats.largest_set.max(recs.len());
                 if recs.is_empty() {
                     self.dev("order", "empty-set", "a successful record-set read yielded no record".into());
                 }
